@@ -162,11 +162,12 @@ namespace verif
             std::string line = b.substr(0, e);
             if (response)
             {
-                // status-line = HTTP-version SP 3DIGIT SP reason-phrase
-                if (line.size() < 12 || line.compare(0, 5, "HTTP/") != 0 || !isdigit(line[5]) || line[6] != '.' || !isdigit(line[7]) || line[8] != ' ')
+                // status-line = HTTP-version SP 3DIGIT SP reason-phrase   (RFC 7230 3.1.2: the SP after the
+                // code is required even when the reason phrase is empty)
+                if (line.size() < 13 || line.compare(0, 5, "HTTP/") != 0 || !isdigit(line[5]) || line[6] != '.' || !isdigit(line[7]) || line[8] != ' ')
                     return m.error = "bad status line: " + printable(line), Malformed;
                 m.version = line.substr(0, 8);
-                if (!isdigit(line[9]) || !isdigit(line[10]) || !isdigit(line[11]) || (line.size() > 12 && line[12] != ' '))
+                if (!isdigit(line[9]) || !isdigit(line[10]) || !isdigit(line[11]) || line[12] != ' ')
                     return m.error = "bad status code: " + printable(line), Malformed;
                 m.status = atoi(line.substr(9, 3).c_str());
                 m.reason = line.size() > 13 ? line.substr(13) : "";
